@@ -84,6 +84,12 @@ class C10(Check):
                     "header": "encoded", "target": "path", "password": pw}, "absent": ["m3", "m1x"], "supply_pw": bool(pw)}
 
     def execute(self, case, env):
+        SS.RECORD.clear()
+        out = self._execute(case, env)
+        # KF-47: failures of a Deflate64 folder whose input the inflate64 library itself cannot round-trip are marked as such
+        return arch.tag_kf47(out, [(f, [m["data"] for m in added if m.get("kind") in ("file", "link") and m.get("data")]) for f, added in SS.RECORD])
+
+    def _execute(self, case, env):
         out = Outcome()
         env.state["k"] += 1
         work = env.tmpdir("c10-")
